@@ -528,6 +528,14 @@ pub fn shuffle_names(m: &mut Model, rng: &mut Rng) {
     for (i, t) in m.terms.iter_mut().enumerate() {
         t.name = format!("{}{st}", names[off + i]);
     }
+    if (26..38).contains(&which) && !m.terms.is_empty() && rng.chance(0.5) {
+        // the end-of-input marker's name on a *terminal*, wherever the shuffle put it
+        let k = rng.below(m.terms.len());
+        let taken = m.nts.iter().any(|n| n.name == "Eof") || m.terms.iter().any(|t| t.name == "Eof") || m.term_enum == "Eof";
+        if !taken {
+            m.terms[k].name = "Eof".to_string();
+        }
+    }
 }
 
 /// Name three symbols so that two *different* symbol sequences of the grammar spell the same
